@@ -254,7 +254,7 @@ func variantBins() map[string]string {
 
 func defaultBudget(tier string) int {
 	if tier == "quick" {
-		return 240
+		return 600 // a safety net for a loaded machine: every quick family finishes in well under two minutes otherwise
 	}
 	return 600
 }
